@@ -676,6 +676,11 @@ func run(c *runner.Ctx) {
 				keptErrs = keptErrs[:0]
 				return []func(){func() {
 					var hs []handed
+					type keptArg struct {
+						args []interface{}
+						ci   int
+					}
+					var keptArgs []keptArg
 					for pos, ci := range seq {
 						cl := menu[ci]
 						args := cl.mk()
@@ -686,6 +691,14 @@ func run(c *runner.Ctx) {
 						if !sameArgs(args, cl.mk()) {
 							viol = append(viol, fmt.Sprintf("arguments-modified/%s|position %d: %v", cl.name, pos, args))
 						}
+						// what earlier calls of the sequence were given is still what it was (a later call must not write into a rule
+						// slice, rule map or value an earlier caller still holds)
+						for _, k := range keptArgs {
+							if !sameArgs(k.args, menu[k.ci].mk()) {
+								viol = append(viol, fmt.Sprintf("arguments-of-an-earlier-call-modified/%s|after %s at position %d: %v", menu[k.ci].name, cl.name, pos, k.args))
+							}
+						}
+						keptArgs = append(keptArgs, keptArg{args, ci})
 						hs = append(hs, handed{res, strings.Clone(res), cl.name})
 						for _, t := range toks {
 							hs = append(hs, handed{t, strings.Clone(t), cl.name + " token"})
